@@ -28,17 +28,38 @@ Lemma sig_pass_sound S P it : sig_pass K S P = Some it ->
 Proof.
   revert it. induction S as [|s t IH]; intros it H sid pk req Hin; [destruct Hin|].
   destruct Hin as [->|Hin].
-  - cbn [sig_pass] in H. destruct (lookup sid (proofs K P)) as [[sp| | |]|] eqn:E1; try discriminate.
+  - cbn [sig_pass] in H. destruct (lookup sid (proofs K P)) as [[sp| | | |]|] eqn:E1; try discriminate.
     destruct (lookup sid (reported K P)) as [rep|] eqn:E2; try discriminate.
     destruct (disclosed_consistent K pk req rep (sp_disclosed K sp)) eqn:E3; try discriminate.
     exists sp, rep. repeat split; assumption.
-  - destruct s as [sid' pk' req'| |]; cbn [sig_pass] in H.
-    + destruct (lookup sid' (proofs K P)) as [[sp'| | |]|]; try discriminate.
+  - destruct s as [sid' pk' req'| | |]; cbn [sig_pass] in H.
+    + destruct (lookup sid' (proofs K P)) as [[sp'| | | |]|]; try discriminate.
       destruct (lookup sid' (reported K P)) as [rep'|]; try discriminate.
       destruct (disclosed_consistent K pk' req' rep' (sp_disclosed K sp')); try discriminate.
       destruct (sig_pass K t P) as [it'|] eqn:E; [|discriminate]. apply (IH it' eq_refl sid pk req Hin).
     + apply (IH it H sid pk req Hin).
     + apply (IH it H sid pk req Hin).
+    + apply (IH it H sid pk req Hin).
+Qed.
+
+(** one step of pred_pass, whatever the head statement is: it either fails or prepends some items *)
+Lemma pred_pass_step S0 s t P it : pred_pass K S0 (s :: t) P = Some it ->
+  exists pre it', pred_pass K S0 t P = Some it' /\ it = pre ++ it'.
+Proof.
+  destruct s as [sid pk req|sid refs|sid ref claim gm gb|sid ref claim gm ek al]; cbn [pred_pass]; intros H.
+  - exists [], it. split; [exact H|reflexivity].
+  - destruct (lookup sid (proofs K P)) as [p|]; [destruct p|]; try discriminate. exists [], it. split; [exact H|reflexivity].
+  - destruct (lookup sid (proofs K P)) as [p|]; [destruct p as [| |pid cm bp| |]|]; try discriminate.
+    destruct (sig_hidden K S0 P ref) as [hid|]; try discriminate.
+    destruct (lookup claim hid) as [mp|]; try discriminate.
+    destruct (pred_pass K S0 t P) as [it'|]; [|discriminate]. injection H as <-.
+    exists [cm; fadd K (fadd K (fmul K cm (fopp K (challenge K P))) (fmul K gm mp)) (fmul K gb bp)], it'. split; reflexivity.
+  - destruct (lookup sid (proofs K P)) as [p|]; [destruct p as [| | |pid c1 c2 bp hp|]|]; try discriminate.
+    destruct (sig_hidden K S0 P ref) as [hid|]; try discriminate.
+    destruct (lookup claim hid) as [mp|]; try discriminate.
+    destruct (pred_pass K S0 t P) as [it'|]; [|discriminate]. injection H as <-.
+    exists [c1; c2; fadd K (fmul K c1 (fopp K (challenge K P))) bp; fadd K (fadd K (fmul K c2 (fopp K (challenge K P))) (fmul K gm mp)) (fmul K ek bp)], it'.
+    split; reflexivity.
 Qed.
 
 Lemma pred_pass_comm S0 S P it : pred_pass K S0 S P = Some it ->
@@ -49,20 +70,34 @@ Lemma pred_pass_comm S0 S P it : pred_pass K S0 S P = Some it ->
 Proof.
   revert it. induction S as [|s t IH]; intros it H sid ref claim gm gb Hin; [destruct Hin|].
   destruct Hin as [->|Hin].
-  - cbn [pred_pass] in H. destruct (lookup sid (proofs K P)) as [[| |pid cm bp|]|] eqn:E1; try discriminate.
+  - cbn [pred_pass] in H. destruct (lookup sid (proofs K P)) as [p|] eqn:E1; [destruct p as [| |pid cm bp| |]|]; try discriminate.
     destruct (sig_hidden K S0 P ref) as [hid|] eqn:E2; try discriminate.
     destruct (lookup claim hid) as [mp|] eqn:E3; try discriminate.
     destruct (pred_pass K S0 t P) as [it'|]; [|discriminate]. injection H as <-.
     exists pid, cm, bp, hid, mp. repeat split; try assumption; cbn; auto.
-  - destruct s as [sid' pk' req'|sid' refs'|sid' ref' claim' gm' gb']; cbn [pred_pass] in H.
-    + apply (IH it H _ _ _ _ _ Hin).
-    + destruct (lookup sid' (proofs K P)) as [[| | |]|]; try discriminate. apply (IH it H _ _ _ _ _ Hin).
-    + destruct (lookup sid' (proofs K P)) as [[| |pid' cm' bp'|]|]; try discriminate.
-      destruct (sig_hidden K S0 P ref') as [hid'|]; try discriminate.
-      destruct (lookup claim' hid') as [mp'|]; try discriminate.
-      destruct (pred_pass K S0 t P) as [it'|] eqn:E; [|discriminate]. injection H as <-.
-      destruct (IH it' eq_refl _ _ _ _ _ Hin) as [pid [cm [bp [hid [mp [A [B [C [D E']]]]]]]]].
-      exists pid, cm, bp, hid, mp. repeat split; try assumption; right; right; assumption.
+  - destruct (pred_pass_step S0 s t P it H) as [pre [it' [Ht ->]]].
+    destruct (IH it' Ht _ _ _ _ _ Hin) as [pid [cm [bp [hid [mp [A [B [C [D E']]]]]]]]].
+    exists pid, cm, bp, hid, mp. repeat split; try assumption; apply in_or_app; right; assumption.
+Qed.
+
+Lemma pred_pass_venc S0 S P it : pred_pass K S0 S P = Some it ->
+  forall sid ref claim gm ek al, In (SVenc K sid ref claim gm ek al) S ->
+  exists pid c1 c2 bp hp hid mp, lookup sid (proofs K P) = Some (PVenc K pid c1 c2 bp hp) /\
+    sig_hidden K S0 P ref = Some hid /\ lookup claim hid = Some mp /\
+    In c1 it /\ In c2 it /\
+    In (fadd K (fmul K c1 (fopp K (challenge K P))) bp) it /\
+    In (fadd K (fadd K (fmul K c2 (fopp K (challenge K P))) (fmul K gm mp)) (fmul K ek bp)) it.
+Proof.
+  revert it. induction S as [|s t IH]; intros it H sid ref claim gm ek al Hin; [destruct Hin|].
+  destruct Hin as [->|Hin].
+  - cbn [pred_pass] in H. destruct (lookup sid (proofs K P)) as [p|] eqn:E1; [destruct p as [| | |pid c1 c2 bp hp|]|]; try discriminate.
+    destruct (sig_hidden K S0 P ref) as [hid|] eqn:E2; try discriminate.
+    destruct (lookup claim hid) as [mp|] eqn:E3; try discriminate.
+    destruct (pred_pass K S0 t P) as [it'|]; [|discriminate]. injection H as <-.
+    exists pid, c1, c2, bp, hp, hid, mp. repeat split; try assumption; cbn; auto.
+  - destruct (pred_pass_step S0 s t P it H) as [pre [it' [Ht ->]]].
+    destruct (IH it' Ht _ _ _ _ _ _ Hin) as [pid [c1 [c2 [bp [hp [hid [mp [A [B [C [D1 [D2 [D3 D4]]]]]]]]]]]]].
+    exists pid, c1, c2, bp, hp, hid, mp. repeat split; try assumption; apply in_or_app; right; assumption.
 Qed.
 
 Lemma pred_pass_eq S0 S P it : pred_pass K S0 S P = Some it ->
@@ -70,14 +105,8 @@ Lemma pred_pass_eq S0 S P it : pred_pass K S0 S P = Some it ->
 Proof.
   revert it. induction S as [|s t IH]; intros it H sid refs Hin; [destruct Hin|].
   destruct Hin as [->|Hin].
-  - cbn [pred_pass] in H. destruct (lookup sid (proofs K P)) as [[|pid| |]|] eqn:E1; try discriminate. exists pid. reflexivity.
-  - destruct s as [sid' pk' req'|sid' refs'|sid' ref' claim' gm' gb']; cbn [pred_pass] in H.
-    + apply (IH it H _ _ Hin).
-    + destruct (lookup sid' (proofs K P)) as [[| | |]|]; try discriminate. apply (IH it H _ _ Hin).
-    + destruct (lookup sid' (proofs K P)) as [[| |pid' cm' bp'|]|]; try discriminate.
-      destruct (sig_hidden K S0 P ref') as [hid'|]; try discriminate.
-      destruct (lookup claim' hid') as [mp'|]; try discriminate.
-      destruct (pred_pass K S0 t P) as [it'|] eqn:E; [|discriminate]. apply (IH it' eq_refl _ _ Hin).
+  - cbn [pred_pass] in H. destruct (lookup sid (proofs K P)) as [p|] eqn:E1; [destruct p as [|pid| | |]|]; try discriminate. exists pid. reflexivity.
+  - destruct (pred_pass_step S0 s t P it H) as [pre [it' [Ht ->]]]. apply (IH it' Ht _ _ Hin).
 Qed.
 
 Lemma accept_ids S P fs : verify_with K S P fs = Accept -> ids_ok K P = true.
@@ -185,5 +214,25 @@ Proof.
   destruct (pred_pass_comm S S P b Hb _ _ _ _ _ Hin) as [pid [cm [bp [hid [mp [A [B [C [D E]]]]]]]]].
   exists pid, cm, bp, hid, mp, (a ++ b). unfold items. rewrite (accept_ids S P fs H), Ha, Hb.
   repeat split; try assumption; apply in_or_app; right; assumption.
+Qed.
+
+(** C10 / C05: an encryption statement's hashed Schnorr commitments are computed with the referenced claim's
+    response, and a statement that requests scalar decryption is only satisfied by a proof carrying the
+    decryptable part *)
+Theorem accept_venc_link S P fs : verify_with K S P fs = Accept ->
+  forall sid ref claim gm ek al, In (SVenc K sid ref claim gm ek al) S ->
+  exists pid c1 c2 bp hp hid mp it, lookup sid (proofs K P) = Some (PVenc K pid c1 c2 bp hp) /\
+    sig_hidden K S P ref = Some hid /\ lookup claim hid = Some mp /\
+    items K S P = Some it /\ fs (Some it) = true /\ In c1 it /\ In c2 it /\
+    In (fadd K (fmul K c1 (fopp K (challenge K P))) bp) it /\
+    In (fadd K (fadd K (fmul K c2 (fopp K (challenge K P))) (fmul K gm mp)) (fmul K ek bp)) it /\
+    (al = true -> hp = true).
+Proof.
+  intros H sid ref claim gm ek al Hin. destruct (accept_inv S P fs H) as [a [b [Ha [Hb [Hf Hp]]]]].
+  destruct (pred_pass_venc S S P b Hb _ _ _ _ _ _ Hin) as [pid [c1 [c2 [bp [hp [hid [mp [A [B [C [D1 [D2 [D3 D4]]]]]]]]]]]]].
+  exists pid, c1, c2, bp, hp, hid, mp, (a ++ b). unfold items. rewrite (accept_ids S P fs H), Ha, Hb.
+  repeat split; try assumption; try (apply in_or_app; right; assumption).
+  intros ->. unfold post in Hp. rewrite forallb_forall in Hp. specialize (Hp _ Hin). cbn [post_one] in Hp. rewrite A in Hp.
+  destruct hp; [reflexivity|discriminate].
 Qed.
 End PresP.
